@@ -158,6 +158,15 @@ def extract_reuse_info(text: str) -> ReuseInfo:
                 )
             )
             raise
+        # license_expression fails in other ways on some malformed input,
+        # such as '( ) MIT'.
+        except Exception as error:  # pylint: disable=broad-except
+            _LOGGER.error(
+                _("Could not parse '{expression}'").format(
+                    expression=expression
+                )
+            )
+            raise ExpressionError(str(error)) from error
     for line in text.splitlines():
         for pattern in _COPYRIGHT_PATTERNS:
             match = pattern.search(line)
